@@ -24,6 +24,7 @@ func checkC01(p *Program, r *Report) {
 	checkBigZone(p, r, "C01.bigzone")
 	checkEncodeIndependent(p, r, "C01.encode-independent")
 	checkBitSlice(p, r, "C01.bitslice")
+	checkRankLastBit(p, r, "C01.rank-last-bit")
 }
 
 // ---------------------------------------------------------------------------
